@@ -154,15 +154,17 @@ Section Row.
   Qed.
 
   (* erasing a run of cells *)
-  Lemma erase_cells_ok : forall n row c f k,
-    (forall j, c <= j < c + n -> D j = true \/ t j = (Blank, f)) ->
+  Lemma erase_cells_ok : forall n row c x k,
+    nonwide (fst x) ->
+    (forall j, c <= j < c + n -> D j = true \/ t j = x) ->
     D k = false ->
     (okr row k \/ (c <= k < c + n /\ k < length row)) ->
-    okr (erase_cells row c n f) k.
+    okr (erase_cells row c n x) k.
   Proof.
-    induction n as [|n IH]; intros row c f k Hall Dk H; simpl.
+    induction n as [|n IH]; intros row c x k Hx Hall Dk H; simpl.
     - destruct H as [H|H]; auto. lia.
     - apply IH.
+      + exact Hx.
       + intros j Hj. apply Hall. lia.
       + exact Dk.
       + destruct (Nat.eq_dec k c) as [->|Hne].
